@@ -39,6 +39,7 @@ type Coin struct {
 	Quote   string // melt quote locking it
 	Witness string // witness it was spent / locked with
 	Key     *btcec.PrivateKey
+	LNUsed  string // melt quote for which a Lightning payment is in flight or succeeded although the mint released the coin
 }
 
 type SigRec struct {
@@ -479,7 +480,27 @@ func (s *Sim) inputReason(in []*Coin, proofs cashu.Proofs) string {
 			return "input-pending"
 		}
 	}
+	for _, c := range in {
+		if c.LNUsed != "" {
+			return "input-paid-out-over-lightning"
+		}
+	}
 	return ""
+}
+
+// markLNUsed is called when the mint hands the inputs of a melt back (quote
+// UNPAID): if the Lightning payment made for the quote is nevertheless in flight
+// or has succeeded, the inputs have been used and must not be accepted again.
+func (s *Sim) markLNUsed(q *MeltQ, coins []*Coin) {
+	p := s.W.Payment(s.E.Name, q.Hash)
+	if p == nil || (p.State != lnmodel.InFlight && p.State != lnmodel.Succeeded) {
+		return
+	}
+	for _, c := range coins {
+		if c.State == Unspent {
+			c.LNUsed = q.Id
+		}
+	}
 }
 
 func witnessOf(proofs cashu.Proofs, c *Coin) string {
@@ -719,6 +740,7 @@ func (s *Sim) Melt(q *MeltQ, in []*Coin, proofs cashu.Proofs, plan lnmodel.PayPl
 				}
 			}
 		case "UNPAID":
+			s.markLNUsed(q, q.Inputs)
 			q.Inputs = nil
 		}
 	} else if reason == "" && !menv.IsPanic(err) {
@@ -774,6 +796,7 @@ func (s *Sim) adoptMeltState(q *MeltQ, st, preimage string) {
 				s.LockedSat.Sub(s.LockedSat, u(c.P.Amount))
 			}
 		}
+		s.markLNUsed(q, q.Inputs)
 		q.Inputs = nil
 	}
 }
